@@ -11,7 +11,7 @@ For every abstract skill state `S` (hence for the real strain skills): the `i`-t
 gradual calculator produces is the one-shot result for `passed_objects = i`, it produces exactly
 `len()` values, and the last one is the full one-shot result.  osu!standard and osu!catch are
 proved outright (osu!mania since the fix /repo 1b784a7), osu!taiko since the
-fix of `TaikoGradualDifficulty::{next,nth}`; its final-value clause needs "the last object is a hit" — recorded finding).
+two fixes of `TaikoGradualDifficulty` / `DifficultyValues::calculate` — all three clauses for every object list).
 -/
 
 namespace Rosu.Gradual
@@ -217,8 +217,9 @@ example :
 Since `/repo` `fix: taiko gradual difficulty counts the first two objects like every other hit` the
 `next` / value-count / `len` clauses hold for every object list; before it they needed "the first two
 objects are hits and there are at least three objects" (witnesses about the pre-fix machine
-`Old.taikoMachine` below).  The final-value clause still needs "no drum roll / swell after the last
-hit" (recorded finding `taiko-gradual-trailing-nonhit`: a disagreement inside the one-shot path). -/
+`Old.taikoMachine` below).  Since `fix: taiko passed_objects(total hits) and the last gradual value include
+the drum rolls and swells after the last hit` the final-value clause holds for every object list as well
+(before: only without a drum roll / swell after the last hit — witness about `Old.taikoOneShot`). -/
 
 /-- **taiko**: for every object list, the first `H` calls of `next` (`H` = number of hits) return
 exactly the one-shot results for `passed_objects = 1, …, H`, the next call returns `None`, and
@@ -244,23 +245,24 @@ theorem taiko_next_eq_prefix (sk : Skills S) (objs : List Bool) :
     rw [this]; rfl
   · simp [taikoMachine, taikoLen, taikoNew, csub, hitsIn, H]
 
-/-- **taiko, final value**: when the last object is a hit, the last gradual value (the one-shot
-result for `passed_objects = H`) equals the full calculation (`passed_objects` unset = any limit
-`≥ H`).  Without the hypothesis this is false — `taiko_trailing_nonhit_fails` (recorded finding). -/
-theorem taiko_last_eq_full (sk : Skills S) (objs : List Bool) (hlast : objs.getLast? = some true)
-    (big : Nat) (hbig : hitsIn objs ≤ big) :
+/-- **taiko, final value** (every object list, since `/repo` `fix: taiko passed_objects(total hits) and the
+last gradual value include the drum rolls and swells after the last hit`): the one-shot result for
+`passed_objects = H` — the last gradual value — equals the full calculation (`passed_objects` unset =
+any limit `≥ H`).  Before that fix this needed "the last object is a hit"
+(`taiko_trailing_nonhit_fails`). -/
+theorem taiko_last_eq_full (sk : Skills S) (objs : List Bool) (big : Nat) (hbig : hitsIn objs ≤ big) :
     taikoOneShot sk objs (hitsIn objs) = taikoOneShot sk objs big := by
-  have hpos : 1 ≤ hitsIn objs := by
-    have : true ∈ objs := List.mem_of_getLast? hlast
-    unfold hitsIn
-    exact List.length_pos_of_mem (List.mem_filter.mpr ⟨this, rfl⟩)
-  apply taikoOneShot_congr
-  · omega
-  · rcases Nat.lt_or_ge (hitsIn objs) big with h | h
-    · rw [cutLen_last_hit objs hlast, cutLen_of_lt objs big h]
-    · have : big = hitsIn objs := by omega
-      rw [this]
-  · omega
+  rw [taikoOneShot_ge sk objs _ (Nat.le_refl _), taikoOneShot_ge sk objs big hbig]
+
+/-- … and so the last value the gradual calculator produces is the full calculation. -/
+theorem taiko_final_eq_full (sk : Skills S) (objs : List Bool) (h0 : 0 < hitsIn objs) (big : Nat)
+    (hbig : hitsIn objs ≤ big) :
+    ((taikoMachine sk objs).nexts (taikoNew sk objs) (hitsIn objs)).1.getLast? =
+      some (Res.some (taikoOneShot sk objs big)) := by
+  rw [(taiko_next_eq_prefix sk objs).1]
+  obtain ⟨k, hk⟩ : ∃ k, hitsIn objs = k + 1 := ⟨hitsIn objs - 1, by omega⟩
+  rw [hk, List.range_succ, List.map_append, List.map_singleton, List.getLast?_concat, ← hk,
+    taiko_last_eq_full sk objs big hbig]
 
 /-! ### The machine before the fix (`Old`): the defect, as `decide`d witnesses -/
 
@@ -290,18 +292,26 @@ example :
        Res.none] := by
   decide
 
-/-- A trailing non-hit (current code, recorded finding `taiko-gradual-trailing-nonhit`): the last
-gradual value is not the full calculation — the unlimited one-shot path also processes the
-difficulty objects of non-hits after the last hit. -/
+/-- Pre-fix one-shot (`Old.taikoOneShot`): with a trailing non-hit, `passed_objects(total hits)` — what the
+last gradual value equalled — was not the full calculation: only the unlimited path processed the
+difficulty objects of the drum rolls / swells after the last hit (the former known finding
+`taiko-gradual-trailing-nonhit`). -/
 theorem taiko_trailing_nonhit_fails :
     let objs := [true, true, true, false]
-    ((taikoMachine unitSkills' objs).nexts (taikoNew unitSkills' objs) 3).1.getLast? ≠
-      some (Res.some (taikoOneShot unitSkills' objs 1000)) ∧
-    ((taikoMachine unitSkills' objs).nexts (taikoNew unitSkills' objs) 4).1.getLast? = some .none := by
+    Old.taikoOneShot unitSkills' objs 3 ≠ Old.taikoOneShot unitSkills' objs 1000 := by
   decide
 
-/-- …while with a hit last the values do agree (instance of `taiko_last_eq_full`; the map starts
-with a drum roll). -/
+/-- The same map as fixed: the last of the three values is the full calculation (instance of
+`taiko_final_eq_full`), and a fourth call returns `None`. -/
+example :
+    let objs := [true, true, true, false]
+    ((taikoMachine unitSkills' objs).nexts (taikoNew unitSkills' objs) 3).1.getLast? =
+      some (Res.some (taikoOneShot unitSkills' objs 1000)) ∧
+    ((taikoMachine unitSkills' objs).nexts (taikoNew unitSkills' objs) 4).1.getLast? = some .none ∧
+    taikoOneShot unitSkills' objs 3 = (3, [0, 1]) := by
+  decide
+
+/-- An irregular start and drum rolls in the middle: intermediate values are unchanged by the drain. -/
 example :
     let objs := [false, true, false, true, true]
     ((taikoMachine unitSkills' objs).nexts (taikoNew unitSkills' objs) 3).1 =
